@@ -1,2 +1,3 @@
 pub mod gds;
+pub mod rawlib;
 pub mod tetris;
